@@ -343,6 +343,8 @@ Plan gen_plan(const Profile &pf, uint64_t seed) {
             o.n = pc == 0 ? (o.st == 1 ? 0 : 1) : pc < 7 ? r.range(1, 100) : pc < 9 ? r.range(1, std::min<int64_t>(pf.max_payload, 5000)) : r.range(1, pf.max_payload);
             if (pf.engine_d && P.mrb_size) o.n = std::min<int64_t>(o.n, std::max<int64_t>(1, (int64_t) P.mrb_size - 60));
             o.prod = P.producers > 1 ? (int) r.below(P.producers) : 0;
+            // a refused call must leave no trace in the file (own PRNG stream; sync writer only: the threaded writer copies the payload before any check)
+            if (!P.use_twr && (pf.prop == "C14" || pf.prop == "C05" || pf.prop == "C13" || pf.prop == "C10")) { Rng rn = rng_derive(o.gs, "nulldata"); if (rn.chance(0.06)) o.en = 1; }
             st.ops.push_back(o);
         }
         streams.push_back(st);
